@@ -1,5 +1,5 @@
 From Coq Require Extraction ExtrOcamlBasic.
-From OxiVerif Require Import Base.Conv DD.Table DD.TableExtra DD.Sem.
+From OxiVerif Require Import Base.Conv DD.Table DD.TableExtra DD.Sem Num.I64.
 Extraction Language OCaml.
 Extraction "model.ml" conv_anchor
   Table.sem_edge Table.wf_b TableExtra.terms_kind_b TableExtra.wf_full_b Table.perm_inverse_b Table.node_ok_b Table.unique_nodes_b
@@ -7,4 +7,5 @@ Extraction "model.ml" conv_anchor
   Table.rc_exact_b Table.rc_first_bad Table.no_dead_b Table.count_reach Table.famz
   Sem.eval_bop Sem.lift1 Sem.lift2 Sem.ite_s Sem.const_s Sem.var_s Sem.cof Sem.exists_s Sem.forall_s Sem.unique_s
   Sem.restrict_s Sem.subst_s Sem.count_s Sem.cube_implies
+  I64.i64_add I64.i64_sub I64.i64_mul I64.i64_div I64.i64_min I64.i64_max I64.i64_is_zero I64.i64_is_one
   Table.mkSnap Table.mkNode Table.mkEdge Table.nlevels Table.edge_eqb.
